@@ -710,7 +710,11 @@ def Alloc (personsIds ta : List String) (L : List String) (ta' : List String) : 
 theorem Alloc.nil (personsIds ta : List String) : Alloc personsIds ta [] ta := by
   refine ⟨List.nodup_nil, ?_, ?_⟩
   · intro p hp; cases hp
-  · simp
+  · have : ∀ l : List String, l = l.filter (fun _ => true) := by
+      intro l; induction l with
+      | nil => rfl
+      | cons a l ih => simp [List.filter_cons]; exact ih
+    simpa using this ta
 
 theorem Alloc.append {personsIds ta ta₁ ta₂ : List String} {L₁ L₂ : List String}
     (h1 : Alloc personsIds ta L₁ ta₁) (h2 : Alloc personsIds ta₁ L₂ ta₂) :
@@ -900,5 +904,125 @@ theorem applyM_last (n : Nat) (pre post : List MWrite) (w : MWrite) (hi : w.pidx
     have hne : w'.pidx ≠ w.pidx := hno w' List.mem_cons_self
     simp only [List.getElem?_set_ne hne]
     exact h0
+
+
+/-- with pairwise distinct targets, every membership write is the last to its slot -/
+theorem applyM_mem (n : Nat) (ms : List MWrite) (hnd : (ms.map (·.pidx)).Nodup) (w : MWrite)
+    (hw : w ∈ ms) (hi : w.pidx < n) :
+    (applyM n ms).1[w.pidx]? = some w.gidx ∧ (applyM n ms).2[w.pidx]? = some w.role := by
+  obtain ⟨pre, post, rfl⟩ := List.append_of_mem hw
+  apply applyM_last n pre post w hi
+  intro w' hw' e
+  rw [List.map_append, List.map_cons, List.nodup_append] at hnd
+  have := (List.nodup_cons.mp hnd.2.1).1
+  exact this (by rw [← e]; exact List.mem_map_of_mem hw')
+
+theorem roleMWrites_pidx (personsIds : List String) (gidx : Nat) (rd : Role × Doc) :
+    (roleMWrites personsIds gidx rd).map (·.pidx) = rd.2.strs.map (fun p => personsIds.idxOf p) := by
+  unfold roleMWrites
+  rw [List.map_map]
+  have : ((fun (w : MWrite) => w.pidx) ∘ fun (x : String × Nat) =>
+      (⟨personsIds.idxOf x.1, gidx, rd.1.roleAt x.2⟩ : MWrite)) = (fun p => personsIds.idxOf p) ∘ Prod.fst := by
+    funext x; rfl
+  rw [this, ← List.map_map, List.zipIdx_map_fst]
+
+theorem instMWrites_pidx (g : GroupKind) (personsIds gids : List String) (kv : DKey × Doc) :
+    (instMWrites g personsIds gids kv).map (·.pidx) = (instListed g kv).map (fun p => personsIds.idxOf p) := by
+  unfold instMWrites instListed listedIn
+  rw [List.map_flatMap, List.map_flatMap]
+  congr 1
+  funext rd
+  exact roleMWrites_pidx personsIds _ rd
+
+theorem loopMWrites_pidx (g : GroupKind) (personsIds gids : List String) (kvs : List (DKey × Doc)) :
+    (kvs.flatMap (instMWrites g personsIds gids)).map (·.pidx)
+      = (kvs.flatMap (instListed g)).map (fun p => personsIds.idxOf p) := by
+  rw [List.map_flatMap, List.map_flatMap]
+  congr 1
+  funext kv
+  exact instMWrites_pidx g personsIds gids kv
+
+theorem nodup_map_idxOf (personsIds : List String) : ∀ (L : List String), L.Nodup →
+    (∀ p ∈ L, p ∈ personsIds) → (L.map (fun p => personsIds.idxOf p)).Nodup
+  | [], _, _ => by simp
+  | a :: L, hn, hm => by
+    rw [List.map_cons, List.nodup_cons]
+    obtain ⟨ha, hn'⟩ := List.nodup_cons.mp hn
+    refine ⟨?_, nodup_map_idxOf personsIds L hn' (fun p hp => hm p (List.mem_cons_of_mem _ hp))⟩
+    intro hmem
+    obtain ⟨b, hb, e⟩ := List.mem_map.mp hmem
+    have := idxOf_inj_of_mem (hm b (List.mem_cons_of_mem _ hb)) (hm a List.mem_cons_self) e
+    subst this
+    exact ha hb
+
+/-- membership of the write caused by the `t`-th person of a role -/
+theorem mem_roleMWrites (personsIds : List String) (gidx : Nat) (rd : Role × Doc) (t : Nat) (pid : String)
+    (h : rd.2.strs[t]? = some pid) :
+    (⟨personsIds.idxOf pid, gidx, rd.1.roleAt t⟩ : MWrite) ∈ roleMWrites personsIds gidx rd := by
+  unfold roleMWrites
+  apply List.mem_map.mpr
+  exact ⟨(pid, t), List.mem_zipIdx_iff_getElem?.mpr h, rfl⟩
+
+
+/-- the membership writes for the persons left out of a group kind -/
+def ownMWrites (personsIds gids' : List String) (r0 : String) (left : List String) : List MWrite :=
+  left.map (fun pid => (⟨personsIds.idxOf pid, gids'.idxOf pid, r0⟩ : MWrite))
+
+/-- what a successful `add_group_entity` gives -/
+theorem addGroupEntity_ok {sys : Sys} {dp : Option String} {g : GroupKind} {personsIds : List String}
+    {kvs : List (DKey × Doc)} {buf buf' : Buffer} {e : Ent}
+    (h : addGroupEntity sys dp g personsIds (.obj kvs) buf = .ok (e, buf')) :
+    ∃ acc, foldE (groupStep sys dp g personsIds (kvs.map (fun kv => kv.1.text))) ⟨personsIds, [], []⟩ kvs = .ok acc ∧
+      e.key = g.key ∧ e.plural = g.plural ∧ e.isPerson = false ∧
+      e.ids = kvs.map (fun kv => kv.1.text) ++ acc.toAlloc ∧
+      (∃ own, (acc.toAlloc = [] ∧ own = [] ∨
+          ∃ r0, g.flatRoles.head? = some r0 ∧ own = ownMWrites personsIds e.ids r0 acc.toAlloc) ∧
+        e.memb = (applyM personsIds.length (acc.mws ++ own)).1 ∧
+        e.roles = (applyM personsIds.length (acc.mws ++ own)).2) ∧
+      buf' = (if acc.toAlloc = [] then applyWrites buf acc.ws
+              else padBuffer sys g.key e.ids.length (applyWrites buf acc.ws)) := by
+  unfold addGroupEntity at h
+  simp only [Doc.asObj?] at h
+  cases hf : foldE (groupStep sys dp g personsIds (kvs.map (fun kv => kv.1.text))) ⟨personsIds, [], []⟩ kvs with
+  | error e' => rw [hf] at h; cases h
+  | ok acc =>
+    rw [hf] at h
+    simp only at h
+    by_cases hl : acc.toAlloc = []
+    · rw [if_pos hl] at h
+      cases h
+      refine ⟨acc, rfl, rfl, rfl, rfl, by simp [hl], ⟨[], Or.inl ⟨hl, rfl⟩, by simp, by simp⟩, by simp [hl]⟩
+    · rw [if_neg hl] at h
+      cases hr : g.flatRoles.head? with
+      | none => rw [hr] at h; cases h
+      | some r0 =>
+        rw [hr] at h
+        cases h
+        refine ⟨acc, rfl, rfl, rfl, rfl, rfl, ⟨_, Or.inr ⟨r0, rfl, rfl⟩, rfl, rfl⟩, by simp [hl]⟩
+
+
+/-! ## the flush order -/
+
+theorem periodLe_iff (p q : Period) : periodLe p q = true ↔
+    unitWeight p.unit < unitWeight q.unit ∨ (unitWeight p.unit = unitWeight q.unit ∧ p.size ≤ q.size) := by
+  unfold periodLe; simp
+
+theorem periodLe_trans (a b c : Period) (h1 : periodLe a b = true) (h2 : periodLe b c = true) :
+    periodLe a c = true := by
+  rw [periodLe_iff] at *
+  omega
+
+theorem periodLe_total (a b : Period) : (periodLe a b || periodLe b a) = true := by
+  rw [Bool.or_eq_true, periodLe_iff, periodLe_iff]
+  omega
+
+theorem sortedPeriods_ok {buf : Buffer} {v : String} {ps : List Period} (h : sortedPeriods buf v = .ok ps) :
+    ∃ qs, mapE (fun ck => match parsePeriod ck with
+        | .ok p => (.ok p : R Period)
+        | .error _ => .error .other) (varKeys buf v) = .ok qs ∧ ps = qs.mergeSort periodLe := by
+  unfold sortedPeriods at h
+  split at h
+  · cases h
+  · rename_i qs hq; cases h; exact ⟨qs, hq, rfl⟩
 
 end OFCore.Bld
